@@ -1,8 +1,1315 @@
 import QP.Base
+/-!
+# C08 — model of `qupulse.program.waveforms` (all eleven waveform classes),
+`qupulse.program.transformation` and `qupulse.pulses.interpolation`.
+
+`Wf` is the tree of *constructed objects* (one constructor per Python class, one field per slot).
+The plain Python constructors (`__init__`, which validate / sort) are the functions `mk…`, the
+optimising constructors are `from…`; both return `Except Err Wf` with the error class Python raises.
+
+`sample w ch t` is the value `unsafe_sample` writes for the single time `t` (`none` = the NaN the
+allocation function leaves behind where no piece owns `t`).  Voltages and times are `Rat`: the
+correspondence runs on dyadic numbers, where every float operation the code performs is exact.
+
+The model describes the tree **with the repairs `fixes/PF-01.diff`, `PF-02.diff`, `PF-04.diff`
+applied** (constant detection of `_validate_input` looks at the interpolation of the segment's end
+entry; a zero-length linear segment takes the end value; the last piece of a sequence / repetition
+owns `[start, end]`).
+
+This file is reused as the waveform leaf type by other properties: no Mathlib, no proofs.
+-/
+namespace QP.C08
+open QP
+
+abbrev Chan := String
+
+inductive Err where
+  | valueError
+  | keyError
+  | assertionError
+  | indexError
+  deriving Repr, DecidableEq
+
+/-! ## Numbers with NaN (`none`) -/
+
+def oadd (a b : Option Rat) : Option Rat :=
+  match a, b with
+  | some x, some y => some (x + y)
+  | _, _ => none
+
+def osub (a b : Option Rat) : Option Rat :=
+  match a, b with
+  | some x, some y => some (x - y)
+  | _, _ => none
+
+def omul (a b : Option Rat) : Option Rat :=
+  match a, b with
+  | some x, some y => some (x * y)
+  | _, _ => none
+
+/-! ## Channel sets (lists; order only matters where Python sorts) -/
+
+def subsetOf (a b : List Chan) : Bool := a.all (fun c => c ∈ b)
+def sameSet (a b : List Chan) : Bool := subsetOf a b && subsetOf b a
+def inter (a b : List Chan) : List Chan := a.filter (fun c => c ∈ b)
+def diff (a b : List Chan) : List Chan := a.filter (fun c => c ∉ b)
+def union (a b : List Chan) : List Chan := a ++ diff b a
+
+def insertChan (c : Chan) : List Chan → List Chan
+  | [] => [c]
+  | x :: xs => if c < x then c :: x :: xs else if c = x then x :: xs else x :: insertChan c xs
+
+/-- sorted list without duplicates: the canonical form of a `frozenset` of channel names -/
+def sortChans (cs : List Chan) : List Chan := cs.foldr insertChan []
+
+/-! ## Dictionaries `channel ↦ α` as association lists
+
+`dinsert` is `d[c] = v` of a Python dict (replace, else append: insertion order); `dnorm` is the
+canonical sorted form used for the dict- and set-valued *slots* that `__eq__` compares. -/
+
+def dinsert {α} (c : Chan) (v : α) : List (Chan × α) → List (Chan × α)
+  | [] => [(c, v)]
+  | (k, x) :: xs => if c = k then (k, v) :: xs else (k, x) :: dinsert c v xs
+
+/-- `dict.update`: later values win -/
+def dupdate {α} (d e : List (Chan × α)) : List (Chan × α) := e.foldl (fun acc kv => dinsert kv.1 kv.2 acc) d
+
+def sinsert {α} (c : Chan) (v : α) : List (Chan × α) → List (Chan × α)
+  | [] => [(c, v)]
+  | (k, x) :: xs => if c < k then (c, v) :: (k, x) :: xs else if c = k then (k, v) :: xs
+                    else (k, x) :: sinsert c v xs
+
+/-- sorted by key, later values win -/
+def dnorm {α} (d : List (Chan × α)) : List (Chan × α) := d.foldl (fun acc kv => sinsert kv.1 kv.2 acc) []
+
+def dkeys {α} (d : List (Chan × α)) : List Chan := d.map (·.1)
+
+/-- `d1 == d2` for Python dicts: same keys, same values, any order -/
+def dictEq (d e : List (Chan × Rat)) : Bool :=
+  d.all (fun kv => decide (e.lookup kv.1 = some kv.2)) && e.all (fun kv => decide (d.lookup kv.1 = some kv.2))
+
+/-! ## Interpolation strategies and tables -/
+
+inductive Interp where
+  | hold
+  | jump
+  | linear
+  deriving Repr, DecidableEq
+
+structure Entry where
+  t : Rat
+  v : Rat
+  interp : Interp
+  deriving Repr, DecidableEq
+
+/-- `interp((t0,v0),(t1,v1), t)`; for `linear` a zero-length segment takes the end value (PF-02 repaired;
+the pinned tree divides by zero) -/
+def interpVal (i : Interp) (e1 e2 : Entry) (t : Rat) : Rat :=
+  match i with
+  | .hold => e1.v
+  | .jump => e2.v
+  | .linear => if e2.t = e1.t then e2.v else (e2.v - e1.v) / (e2.t - e1.t) * (t - e1.t) + e1.v
+
+/-- `InterpolationStrategy.constant_value(start, end)` -/
+def segConst (i : Interp) (e1 e2 : Entry) : Option Rat :=
+  match i with
+  | .hold => some e1.v
+  | .jump => some e2.v
+  | .linear => if e1.v = e2.v then some e1.v else none
+
+/-- the loop of `TableWaveform.unsafe_sample` seen from one sample time: every pair of neighbouring
+entries overwrites `[t1, t2]` (both ends: `searchsorted(t1,'left')`, `searchsorted(t2,'right')`) -/
+def tableGo (t : Rat) : Option Rat → List Entry → Option Rat
+  | acc, e1 :: e2 :: rest =>
+    tableGo t (if e1.t ≤ t ∧ t ≤ e2.t then some (interpVal e2.interp e1 e2 t) else acc) (e2 :: rest)
+  | acc, _ => acc
+
+def tableSample (es : List Entry) (t : Rat) : Option Rat := tableGo t none es
+
+/-- result of `_validate_input` -/
+inductive Validated where
+  | constant (duration value : Rat)
+  | entries (es : List Entry)
+  deriving Repr, DecidableEq
+
+/-- `if constant_v is not None and next_interp.constant_value((t, v), (next_t, next_v)) != constant_v:
+constant_v = None` — PF-01 repaired: the segment `(cur, nx)` is interpolated with `nx.interp` (the
+pinned tree asks `cur.interp`) -/
+def constStep (constV : Option Rat) (cur nx : Entry) : Option Rat :=
+  match constV with
+  | some c => if segConst nx.interp cur nx = some c then some c else none
+  | none => none
+
+/-- the `for next_t, next_v, next_interp in input_iter` loop.  `prev` is the last kept entry
+(`previous_t`, `previous_v`), `cur` is `(t, v, interp)`, `out` the output table. -/
+def validateLoop (prev cur : Entry) (constV : Option Rat) (out : List Entry) :
+    List Entry → Except Err (Entry × Option Rat × List Entry)
+  | [] => .ok (cur, constV, out)
+  | nx :: rest =>
+    if nx.t < cur.t then .error .valueError else
+    let constV' := constStep constV cur nx
+    if (prev.t ≠ cur.t ∨ cur.t ≠ nx.t) ∧ (prev.v ≠ cur.v ∨ cur.v ≠ nx.v) then
+      validateLoop cur nx constV' (out ++ [cur]) rest
+    else
+      validateLoop prev nx constV' out rest
+
+/-- `TableWaveform._validate_input` -/
+def validateInput : List Entry → Except Err Validated
+  | [] => .error .valueError
+  | first :: rest =>
+    if first.t ≠ 0 then .error .valueError else
+    match rest with
+    | [] => .error .valueError
+    | second :: rest' =>
+      if second.t < 0 then .error .valueError else
+      let first' : Entry := ⟨0, first.v, first.interp⟩
+      match validateLoop first' second (segConst second.interp first' second) [first'] rest' with
+      | .error e => .error e
+      | .ok (last, constV, out) =>
+        if last.t = 0 then .error .valueError else
+        match constV with
+        | some c => .ok (.constant last.t c)
+        | none => .ok (.entries (out ++ [last]))
+
+/-! ## Transformations -/
+
+/-- a transformation parameter: a number or an expression in `t` (affine, slope ≠ 0) -/
+inductive TV where
+  | num (c : Rat)
+  | expr (slope icpt : Rat)
+  deriving Repr, DecidableEq
+
+def TV.eval : TV → Rat → Rat
+  | .num c, _ => c
+  | .expr s i, t => s * t + i
+
+def TV.timeDependent : TV → Bool
+  | .num _ => false
+  | .expr _ _ => true
+
+inductive TAtom where
+  | identity
+  | offset (m : List (Chan × TV))
+  | scaling (m : List (Chan × TV))
+  | linear (mat : List (List Rat)) (ins outs : List Chan)
+  | parallel (m : List (Chan × TV))
+  deriving Repr, DecidableEq
+
+/-- the constructors turn their mapping argument into a `frozendict`: order is irrelevant (kept sorted) -/
+def TAtom.norm : TAtom → TAtom
+  | .offset m => .offset (dnorm m)
+  | .scaling m => .scaling (dnorm m)
+  | .parallel m => .parallel (dnorm m)
+  | a => a
+
+/-- a single transformation or a (flat) `ChainedTransformation` -/
+inductive Trafo where
+  | atom (a : TAtom)
+  | chain (as : List TAtom)
+  deriving Repr, DecidableEq
+
+/-- one row of `matrix @ data_in`; a NaN input makes the output NaN whatever its coefficient -/
+def dot : List Rat → List (Option Rat) → Option Rat
+  | m :: ms, x :: xs => oadd (omul (some m) x) (dot ms xs)
+  | _, _ => some 0
+
+/-- the value a transformation produces on channel `c` at time `t` when the input channels carry
+`f` (the dictionaries of the Python code seen pointwise) -/
+def TAtom.applyF (a : TAtom) (t : Rat) (f : Chan → Option Rat) (c : Chan) : Option Rat :=
+  match a with
+  | .identity => f c
+  | .offset m => match m.lookup c with
+    | some tv => oadd (f c) (some (tv.eval t))
+    | none => f c
+  | .scaling m => match m.lookup c with
+    | some tv => omul (f c) (some (tv.eval t))
+    | none => f c
+  | .linear mat ins outs => match (outs.zip mat).lookup c with
+    | some row => dot row (ins.map f)
+    | none => f c
+  | .parallel m => match m.lookup c with
+    | some tv => some (tv.eval t)
+    | none => f c
+
+def applyChain : List TAtom → Rat → (Chan → Option Rat) → Chan → Option Rat
+  | [], _, f => f
+  | a :: as, t, f => applyChain as t (a.applyF t f)
+
+def Trafo.applyF : Trafo → Rat → (Chan → Option Rat) → Chan → Option Rat
+  | .atom a, t, f => a.applyF t f
+  | .chain as, t, f => applyChain as t f
+
+def TAtom.outputChannels : TAtom → List Chan → List Chan
+  | .identity, cs => cs
+  | .offset _, cs => cs
+  | .scaling _, cs => cs
+  | .linear _ ins outs, cs => union (diff cs ins) outs
+  | .parallel m, cs => union cs (dkeys m)
+
+def Trafo.outputChannels : Trafo → List Chan → List Chan
+  | .atom a, cs => a.outputChannels cs
+  | .chain as, cs => as.foldl (fun cs a => a.outputChannels cs) cs
+
+def TAtom.isConstantInvariant : TAtom → Bool
+  | .identity => true
+  | .offset m => m.all (fun kv => !kv.2.timeDependent)
+  | .scaling m => m.all (fun kv => !kv.2.timeDependent)
+  | .linear _ _ _ => true
+  | .parallel m => m.all (fun kv => !kv.2.timeDependent)
+
+def Trafo.isConstantInvariant : Trafo → Bool
+  | .atom a => a.isConstantInvariant
+  | .chain as => as.all (·.isConstantInvariant)
+
+/-- what has to hold for `get_output_channels` / `__call__` not to raise when the transformation is
+applied to data on the channels `cs` -/
+def TAtom.okOn : TAtom → List Chan → Bool
+  | .linear mat ins outs, cs =>
+    subsetOf ins cs && (!ins.isEmpty || outs.isEmpty) && mat.length == outs.length &&
+    mat.all (fun row => row.length == ins.length)
+  | _, _ => true
+
+/-- channels an atom adds to the data whichever channel was requested -/
+def TAtom.produced : TAtom → List Chan
+  | .linear _ _ outs => outs
+  | .parallel m => dkeys m
+  | _ => []
+
+/-- inside a chain a `LinearTransformation` must see all of its inputs or none: its inputs are not
+produced by an earlier member of the chain (`prod`), otherwise `__call__` raises `KeyError` when a
+forwarded channel is requested (open finding PF-C08d) -/
+def TAtom.insFresh : TAtom → List Chan → Bool
+  | .linear _ ins _, prod => (inter ins prod).isEmpty
+  | _, _ => true
+
+def chainOkOn : List TAtom → List Chan → List Chan → Bool
+  | [], _, _ => true
+  | a :: as, prod, cs =>
+    a.okOn cs && a.insFresh prod && chainOkOn as (prod ++ a.produced) (a.outputChannels cs)
+
+def Trafo.okOn : Trafo → List Chan → Bool
+  | .atom a, cs => a.okOn cs
+  | .chain as, cs => chainOkOn as [] cs
+
+/-- `LinearTransformation.__init__`: rows and columns are sorted by channel name -/
+def sortByKey {α} (ks : List Chan) (xs : List α) : List (Chan × α) :=
+  (ks.zip xs).foldr (fun kv acc => dinsertDup kv acc) []
+where
+  dinsertDup (kv : Chan × α) : List (Chan × α) → List (Chan × α)
+    | [] => [kv]
+    | y :: ys => if kv.1 ≤ y.1 then kv :: y :: ys else y :: dinsertDup kv ys
+
+def transpose (rows : List (List Rat)) (n : Nat) : List (List Rat) :=
+  (List.range n).map (fun j => rows.map (fun r => r.getD j 0))
+
+def mkLinear (mat : List (List Rat)) (ins outs : List Chan) : Except Err TAtom :=
+  if mat.length ≠ outs.length ∨ mat.any (fun r => r.length ≠ ins.length) then .error .valueError else
+  let rowsSorted := (sortByKey outs mat).map (·.2)
+  let cols := transpose rowsSorted ins.length
+  let colsSorted := (sortByKey ins cols).map (·.2)
+  .ok (.linear (transpose colsSorted outs.length) (sortByKey ins cols |>.map (·.1)) (sortByKey outs mat |>.map (·.1)))
+
+/-- `chain_transformations(*ts)` on already flat arguments -/
+def chainTransformations (ts : List Trafo) : Trafo :=
+  let parsed := ts.flatMap (fun
+    | .atom .identity => []
+    | .atom a => [a]
+    | .chain as => as)
+  match parsed with
+  | [] => .atom .identity
+  | [a] => .atom a
+  | as => .chain as
+
+/-! ## Functors and arithmetic operators -/
+
+inductive Fn where
+  | neg
+  | pos
+  | abs
+  deriving Repr, DecidableEq
+
+def Fn.apply : Fn → Rat → Rat
+  | .neg, x => -x
+  | .pos, x => x
+  | .abs, x => if x < 0 then -x else x
+
+inductive ArithOp where
+  | plus
+  | minus
+  deriving Repr, DecidableEq
+
+def ArithOp.apply : ArithOp → Option Rat → Option Rat → Option Rat
+  | .plus, a, b => oadd a b
+  | .minus, a, b => osub a b
+
+def ArithOp.rhsOnly : ArithOp → Option Rat → Option Rat
+  | .plus, b => b
+  | .minus, b => b.map (fun x => -x)
+
+def ArithOp.applyR : ArithOp → Rat → Rat → Rat
+  | .plus, a, b => a + b
+  | .minus, a, b => a - b
+
+def ArithOp.rhsOnlyR : ArithOp → Rat → Rat
+  | .plus, b => b
+  | .minus, b => -b
+
+/-! ## Waveforms -/
+
+inductive Wf where
+  | table (ch : Chan) (es : List Entry)
+  | const (dur amp : Rat) (ch : Chan)
+  /-- `FunctionWaveform` with expression `slope*t + icpt` -/
+  | func (slope icpt dur : Rat) (ch : Chan)
+  | seq (ws : List Wf)
+  | multi (ws : List Wf)
+  | rep (body : Wf) (n : Nat)
+  | trans (inner : Wf) (tr : Trafo)
+  | subset (inner : Wf) (chs : List Chan)
+  | arith (lhs : Wf) (op : ArithOp) (rhs : Wf)
+  | functor (inner : Wf) (fs : List (Chan × Fn))
+  | reversed (inner : Wf)
+  deriving Repr, Inhabited
+
+namespace Wf
+
+mutual
+/-- `Waveform.duration` -/
+def duration : Wf → Rat
+  | .table _ es => match es.getLast? with
+    | some e => e.t
+    | none => 0
+  | .const d _ _ => d
+  | .func _ _ d _ => d
+  | .seq ws => durSum ws
+  | .multi ws => durHead ws
+  | .rep b n => duration b * n
+  | .trans i _ => duration i
+  | .subset i _ => duration i
+  | .arith l _ _ => duration l
+  | .functor i _ => duration i
+  | .reversed i => duration i
+termination_by structural w => w
+def durSum : List Wf → Rat
+  | [] => 0
+  | w :: ws => duration w + durSum ws
+termination_by structural ws => ws
+def durHead : List Wf → Rat
+  | [] => 0
+  | w :: _ => duration w
+termination_by structural ws => ws
+end
+
+mutual
+/-- `Waveform.defined_channels` (as a list; a set for Python) -/
+def channels : Wf → List Chan
+  | .table ch _ => [ch]
+  | .const _ _ ch => [ch]
+  | .func _ _ _ ch => [ch]
+  | .seq ws => chanHead ws
+  | .multi ws => chanUnion ws
+  | .rep b _ => channels b
+  | .trans i tr => tr.outputChannels (channels i)
+  | .subset _ chs => chs
+  | .arith l _ r => union (channels l) (channels r)
+  | .functor i _ => channels i
+  | .reversed i => channels i
+termination_by structural w => w
+def chanHead : List Wf → List Chan
+  | [] => []
+  | w :: _ => channels w
+termination_by structural ws => ws
+def chanUnion : List Wf → List Chan
+  | [] => []
+  | w :: ws => union (channels w) (chanUnion ws)
+termination_by structural ws => ws
+end
+
+/-- the loop of `RepetitionWaveform.unsafe_sample` seen from one sample time: repetition `k` owns
+`[k·d, (k+1)·d)`, the last one `[.., n·d]` (PF-04 repaired) -/
+def repSample (f : Rat → Option Rat) (d : Rat) : Nat → Rat → Option Rat
+  | 0, _ => none
+  | 1, t => if 0 ≤ t ∧ t ≤ d then f t else none
+  | n + 2, t => if 0 ≤ t ∧ t < d then f t else repSample f d (n + 1) (t - d)
+
+mutual
+/-- the value `unsafe_sample(ch, [t])` produces; `none` is NaN -/
+def sample : Wf → Chan → Rat → Option Rat
+  | .table _ es, _, t => tableSample es t
+  | .const _ a _, _, _ => some a
+  | .func s i _ _, _, t => some (s * t + i)
+  | .seq ws, ch, t => sampleSeq ws ch t
+  | .multi ws, ch, t => sampleMulti ws ch t
+  | .rep b n, ch, t => repSample (fun t' => sample b ch t') (duration b) n t
+  | .trans i tr, ch, t => tr.applyF t (fun c => sample i c t) ch
+  | .subset i _, ch, t => sample i ch t
+  | .arith l op r, ch, t =>
+    if ch ∈ channels l then
+      if ch ∈ channels r then op.apply (sample l ch t) (sample r ch t) else sample l ch t
+    else if ch ∈ channels r then op.rhsOnly (sample r ch t)
+    else none
+  | .functor i fs, ch, t => match fs.lookup ch with
+    | some f => (sample i ch t).map f.apply
+    | none => none
+  | .reversed i, ch, t => sample i ch (duration i - t)
+termination_by structural w => w
+/-- `SequenceWaveform.unsafe_sample`: piece `k` owns `[start, end)`, the last one `[start, end]`
+(PF-04 repaired; on the pinned tree the last piece is right-open as well) -/
+def sampleSeq : List Wf → Chan → Rat → Option Rat
+  | [], _, _ => none
+  | [w], ch, t => if 0 ≤ t ∧ t ≤ duration w then sample w ch t else none
+  | w :: w' :: ws, ch, t =>
+    if 0 ≤ t ∧ t < duration w then sample w ch t else sampleSeq (w' :: ws) ch (t - duration w)
+termination_by structural ws => ws
+/-- `MultiChannelWaveform.__getitem__` followed by the sub-waveform's `unsafe_sample` -/
+def sampleMulti : List Wf → Chan → Rat → Option Rat
+  | [], _, _ => none
+  | w :: ws, ch, t => if ch ∈ channels w then sample w ch t else sampleMulti ws ch t
+termination_by structural ws => ws
+end
+
+mutual
+/-- `Waveform.constant_value(ch)` -/
+def constantValue : Wf → Chan → Option Rat
+  | .table _ _, _ => none
+  | .const _ a _, _ => some a
+  | .func _ _ _ _, _ => none
+  | .seq ws, ch => cvSeq ws ch none
+  | .multi ws, ch => cvMulti ws ch
+  | .rep b _, ch => constantValue b ch
+  | .trans i tr, ch =>
+    if tr.isConstantInvariant then tr.applyF 0 (fun c => constantValue i c) ch else none
+  | .subset i chs, ch => if ch ∈ chs then constantValue i ch else none
+  | .arith l op r, ch =>
+    if ch ∈ channels r then
+      match constantValue r ch with
+      | none => none
+      | some rv =>
+        if ch ∈ channels l then
+          match constantValue l ch with
+          | none => none
+          | some lv => op.apply (some lv) (some rv)
+        else op.rhsOnly (some rv)
+    else constantValue l ch
+  | .functor i fs, ch => match constantValue i ch with
+    | none => none
+    | some x => (fs.lookup ch).map (fun f => f.apply x)
+  | .reversed _, _ => none
+termination_by structural w => w
+/-- the loop of `SequenceWaveform.constant_value`; `v` is the value seen so far -/
+def cvSeq : List Wf → Chan → Option Rat → Option Rat
+  | [], _, v => v
+  | w :: ws, ch, v =>
+    match constantValue w ch with
+    | none => none
+    | some c =>
+      match v with
+      | none => cvSeq ws ch (some c)
+      | some x => if c = x then cvSeq ws ch (some x) else none
+termination_by structural ws => ws
+def cvMulti : List Wf → Chan → Option Rat
+  | [], _ => none
+  | w :: ws, ch => if ch ∈ channels w then constantValue w ch else cvMulti ws ch
+termination_by structural ws => ws
+end
+
+mutual
+/-- `Waveform.constant_value_dict()` (sorted by channel) -/
+def constantValueDict : Wf → Option (List (Chan × Rat))
+  | .table _ _ => none
+  | .const _ a ch => some [(ch, a)]
+  | .func _ _ _ _ => none
+  | .seq _ => none
+  | .multi ws => cvdMulti ws
+  | .rep b _ => constantValueDict b
+  | .trans _ _ => none
+  | .subset i chs => match constantValueDict i with
+    | none => none
+    | some d => chs.foldr (fun c acc => match acc, d.lookup c with
+        | some l, some v => some (dinsert c v l)
+        | _, _ => none) (some [])
+  | .arith _ _ _ => none
+  | .functor _ _ => none
+  -- the base implementation: `{ch: None for ch in channels}` contains a `None` unless it is empty
+  | .reversed i => if channels i = [] then some [] else none
+termination_by structural w => w
+def cvdMulti : List Wf → Option (List (Chan × Rat))
+  | [] => some []
+  | w :: ws => match constantValueDict w, cvdMulti ws with
+    | some d, some rest => some (dupdate d rest)
+    | _, _ => none
+termination_by structural ws => ws
+end
+
+
+/-! ## Plain constructors (`__init__`) and optimising constructors -/
+
+def rabs (x : Rat) : Rat := if x < 0 then -x else x
+
+/-- `math.isclose(a, b)` with `rel_tol = 1e-9` (used through `qupulse.utils.isclose`) -/
+def isclose (a b : Rat) : Bool :=
+  decide (a = b) || decide (rabs (a - b) * 1000000000 ≤ max (rabs a) (rabs b))
+
+/-- `numpy.isclose(a, b)`: `|a-b| ≤ 1e-8 + 1e-5·|b|` -/
+def npIsclose (a b : Rat) : Bool :=
+  decide (rabs (a - b) ≤ 1 / 100000000 + rabs b / 100000)
+
+/-- `_sort_key_for_channels` (string channel names only) -/
+def sortKey (w : Wf) : List Chan := sortChans (channels w)
+
+/-- stable insertion: `w` (which stood before all of `xs`) goes in front of the first element whose
+key is not smaller -/
+def insertByKey (w : Wf) : List Wf → List Wf
+  | [] => [w]
+  | x :: xs => if sortKey x < sortKey w then x :: insertByKey w xs else w :: x :: xs
+
+def sortByChannels (ws : List Wf) : List Wf := ws.foldr insertByKey []
+
+/-- the disjointness loop of `MultiChannelWaveform.__init__`; `acc` are the channels seen so far -/
+def disjointGo : List Chan → List Wf → Bool
+  | _, [] => true
+  | acc, w :: ws => (inter (channels w) acc).isEmpty && disjointGo (union acc (channels w)) ws
+
+/-- `MultiChannelWaveform(sub_waveforms)` -/
+def mkMulti (ws : List Wf) : Except Err Wf :=
+  if ws.isEmpty then .error .valueError else
+  let sorted := sortByChannels ws
+  if !disjointGo [] sorted then .error .valueError else
+  if !(sorted.all (fun w => isclose (duration w) (durHead sorted))) then .error .valueError else
+  .ok (.multi sorted)
+
+/-- `SequenceWaveform(sub_waveforms)` -/
+def mkSeq (ws : List Wf) : Except Err Wf :=
+  match ws with
+  | [] => .error .valueError
+  | w :: rest =>
+    if rest.all (fun x => sameSet (channels x) (channels w)) then .ok (.seq ws) else .error .valueError
+
+/-- `ConstantWaveform.from_mapping(duration, constant_values)` -/
+def fromMapping (dur : Rat) (d : List (Chan × Rat)) : Except Err Wf :=
+  match d with
+  | [] => .error .assertionError
+  | [(c, a)] => .ok (.const dur a c)
+  | _ => mkMulti (d.map (fun ca => .const dur ca.2 ca.1))
+
+def flattenSeq (ws : List Wf) : List Wf :=
+  ws.flatMap (fun w => match w with
+    | .seq xs => xs
+    | w => [w])
+
+/-- `constant_values == wf.constant_value_dict()` -/
+def cvdEq (d : List (Chan × Rat)) (w : Wf) : Bool :=
+  match constantValueDict w with
+  | some e => dictEq d e
+  | none => false
+
+/-- one round of the loop of `from_sequence`: `if constant_values and constant_values != …: constant_values = None` -/
+def seqStep (cv : Option (List (Chan × Rat))) (w : Wf) : Option (List (Chan × Rat)) :=
+  match cv with
+  | some d => if d ≠ [] ∧ cvdEq d w = false then none else some d
+  | none => none
+
+/-- the `constant_values` variable of `from_sequence` after the loop -/
+def seqConstants (ws : List Wf) : Option (List (Chan × Rat)) :=
+  match ws with
+  | [] => none
+  | w0 :: _ => ws.foldl seqStep (constantValueDict w0)
+
+/-- `SequenceWaveform.from_sequence(waveforms)` -/
+def fromSequence (ws : List Wf) : Except Err Wf :=
+  match ws with
+  | [] => .error .assertionError
+  | [w] => .ok w
+  | _ =>
+    match seqConstants ws with
+    | none => mkSeq (flattenSeq ws)
+    | some d => fromMapping (durSum (flattenSeq ws)) d
+
+def flattenMulti (ws : List Wf) : List Wf :=
+  ws.flatMap (fun w => match w with
+    | .multi xs => xs
+    | w => [w])
+
+/-- `MultiChannelWaveform.from_parallel(waveforms)` -/
+def fromParallel (ws : List Wf) : Except Err Wf :=
+  match ws with
+  | [] => .error .assertionError
+  | [w] => .ok w
+  | _ => mkMulti (flattenMulti ws)
+
+/-- `RepetitionWaveform(body, repetition_count)` for an `int` count -/
+def mkRep (body : Wf) (n : Int) : Except Err Wf :=
+  if n < 1 then .error .valueError else .ok (.rep body n.toNat)
+
+/-- `RepetitionWaveform.from_repetition_count(body, repetition_count)` -/
+def fromRepetitionCount (body : Wf) (n : Int) : Except Err Wf :=
+  match constantValueDict body with
+  | none => mkRep body n
+  | some d => fromMapping (duration body * n) d
+
+/-- `TransformingWaveform(inner, transformation)` never raises -/
+def mkTrans (inner : Wf) (tr : Trafo) : Except Err Wf := .ok (.trans inner tr)
+
+def allSome : List (Chan × Option Rat) → Option (List (Chan × Rat))
+  | [] => some []
+  | (c, some v) :: rest => (allSome rest).map (fun l => (c, v) :: l)
+  | (_, none) :: _ => none
+
+/-- `TransformingWaveform.from_transformation(inner, transformation)` -/
+def fromTransformation (inner : Wf) (tr : Trafo) : Except Err Wf :=
+  match constantValueDict inner with
+  | none => .ok (.trans inner tr)
+  | some d =>
+    if !tr.isConstantInvariant then .ok (.trans inner tr) else
+    let outs := sortChans (tr.outputChannels (dkeys d))
+    match allSome (outs.map (fun c => (c, tr.applyF 0 (fun k => d.lookup k) c))) with
+    | none => .error .keyError
+    | some dd => fromMapping (duration inner) dd
+
+/-- `ArithmeticWaveform(lhs, op, rhs)` -/
+def mkArith (l : Wf) (op : ArithOp) (r : Wf) : Except Err Wf :=
+  if npIsclose (duration l) (duration r) then .ok (.arith l op r) else .error .assertionError
+
+/-- the value `from_operator` stores for a channel of the right operand -/
+def mergeVal (op : ArithOp) (dl : List (Chan × Rat)) (c : Chan) (rv : Rat) : Rat :=
+  match dl.lookup c with
+  | some lv => op.applyR lv rv
+  | none => op.rhsOnlyR rv
+
+/-- the merged dictionary of `from_operator`.  The Python loop looks `ch` up in the dictionary it is
+updating; `rhs_cv` is a dict (every key once), so that is the value `lhs_cv` had. -/
+def mergeConstants (op : ArithOp) (dl dr : List (Chan × Rat)) : List (Chan × Rat) :=
+  dr.foldl (fun acc cr => dinsert cr.1 (mergeVal op dl cr.1 cr.2) acc) dl
+
+/-- `ArithmeticWaveform.from_operator(lhs, op, rhs)` -/
+def fromOperator (l : Wf) (op : ArithOp) (r : Wf) : Except Err Wf :=
+  match constantValueDict l, constantValueDict r with
+  | some dl, some dr =>
+    if isclose (duration l) (duration r) then fromMapping (duration l) (mergeConstants op dl dr)
+    else .error .assertionError
+  | _, _ => mkArith l op r
+
+/-- `FunctorWaveform(inner, functor)`; `fs` is the (sorted) content of the `functor` mapping -/
+def mkFunctor (inner : Wf) (fs : List (Chan × Fn)) : Except Err Wf :=
+  if sameSet (dkeys fs) (channels inner) then .ok (.functor inner fs) else .error .assertionError
+
+def applyFunctors (fs : List (Chan × Fn)) : List (Chan × Rat) → Option (List (Chan × Rat))
+  | [] => some []
+  | (c, v) :: rest => match fs.lookup c, applyFunctors fs rest with
+    | some f, some l => some ((c, f.apply v) :: l)
+    | _, _ => none
+
+/-- `FunctorWaveform.from_functor(inner, functor)` -/
+def fromFunctor (inner : Wf) (fs : List (Chan × Fn)) : Except Err Wf :=
+  match constantValueDict inner with
+  | none => mkFunctor inner fs
+  | some d => match applyFunctors fs d with
+    | none => .error .keyError
+    | some dd => fromMapping (duration inner) dd
+
+/-- `ReversedWaveform.from_to_reverse(inner)`: `if inner.constant_value_dict()` is a truth test -/
+def fromToReverse (inner : Wf) : Wf :=
+  match constantValueDict inner with
+  | some (_ :: _) => inner
+  | _ => .reversed inner
+
+/-- the method `Waveform.reversed()` with its two overrides -/
+def reversedM : Wf → Wf
+  | .const d a c => .const d a c
+  | .reversed i => i
+  | w => .reversed w
+
+/-- `FunctionWaveform.from_expression` for the expression `slope*t + icpt` -/
+def fromExpression (slope icpt dur : Rat) (ch : Chan) : Wf :=
+  if slope = 0 then .const dur icpt ch else .func slope icpt dur ch
+
+/-- `TableWaveform(channel, waveform_table)` with a tuple: no validation, `waveform_table[-1]` must exist -/
+def mkTable (ch : Chan) (es : List Entry) : Except Err Wf :=
+  if es.isEmpty then .error .indexError else .ok (.table ch es)
+
+/-- `TableWaveform.from_table(channel, table)` -/
+def fromTable (ch : Chan) (raw : List Entry) : Except Err Wf :=
+  match validateInput raw with
+  | .error e => .error e
+  | .ok (.constant d c) => .ok (.const d c ch)
+  | .ok (.entries es) => .ok (.table ch es)
+
+/-! ## Channel subsets -/
+
+def restrictFunctors (fs : List (Chan × Fn)) : List Chan → Option (List (Chan × Fn))
+  | [] => some []
+  | c :: cs => match fs.lookup c, restrictFunctors fs cs with
+    | some f, some l => some (sinsert c f l)
+    | _, _ => none
+
+mutual
+/-- `unsafe_get_subset_for_channels(channels)` -/
+def unsafeSubset : Wf → List Chan → Except Err Wf
+  | .table ch es, _ => .ok (.table ch es)
+  | .const d a ch, _ => .ok (.const d a ch)
+  | .func s i d ch, _ => .ok (.func s i d ch)
+  | .seq ws, chs =>
+    match subsetSeq ws chs with
+    | .error e => .error e
+    | .ok subs => fromSequence subs
+  | .multi ws, chs =>
+    match subsetMulti ws chs with
+    | .error e => .error e
+    | .ok [] => .error .keyError
+    | .ok [x] =>
+      -- the single relevant sub-waveform is asked for all of `chs`
+      if (ws.filter (fun w => !(inter (channels w) chs).isEmpty)).all (fun w => subsetOf chs (channels w))
+      then .ok x else .error .keyError
+    | .ok xs => fromParallel xs
+  | .rep b n, chs =>
+    match unsafeSubset b chs with
+    | .error e => .error e
+    | .ok b' => fromRepetitionCount b' n
+  | .trans i tr, chs => .ok (.subset (.trans i tr) (sortChans chs))
+  | .subset i _, chs =>
+    -- `inner.get_subset_for_channels(channels)`, the checked variant
+    if !subsetOf chs (channels i) then .error .keyError
+    else if sameSet chs (channels i) then .ok i
+    else unsafeSubset i chs
+  | .arith l op r, chs => .ok (.subset (.arith l op r) (sortChans chs))
+  | .functor i fs, chs =>
+    match unsafeSubset i chs with
+    | .error e => .error e
+    | .ok i' => match restrictFunctors fs chs with
+      | none => .error .keyError
+      | some fs' => fromFunctor i' fs'
+  | .reversed i, chs =>
+    match unsafeSubset i chs with
+    | .error e => .error e
+    | .ok i' => .ok (fromToReverse i')
+termination_by structural w => w
+/-- `[sub.unsafe_get_subset_for_channels(chs & sub.channels) for sub in subs if sub.channels & chs]` -/
+def subsetSeq : List Wf → List Chan → Except Err (List Wf)
+  | [], _ => .ok []
+  | w :: ws, chs =>
+    match subsetSeq ws chs with
+    | .error e => .error e
+    | .ok rest =>
+      if (inter (channels w) chs).isEmpty then .ok rest else
+      match unsafeSubset w (inter chs (channels w)) with
+      | .error e => .error e
+      | .ok w' => .ok (w' :: rest)
+termination_by structural ws => ws
+/-- `[sub.get_subset_for_channels(chs & sub.channels) for sub in subs if sub.channels & chs]` -/
+def subsetMulti : List Wf → List Chan → Except Err (List Wf)
+  | [], _ => .ok []
+  | w :: ws, chs =>
+    match subsetMulti ws chs with
+    | .error e => .error e
+    | .ok rest =>
+      if (inter (channels w) chs).isEmpty then .ok rest else
+      if sameSet (inter chs (channels w)) (channels w) then .ok (w :: rest) else
+      match unsafeSubset w (inter chs (channels w)) with
+      | .error e => .error e
+      | .ok w' => .ok (w' :: rest)
+termination_by structural ws => ws
+end
+
+/-- `Waveform.get_subset_for_channels(channels)` -/
+def getSubset (w : Wf) (chs : List Chan) : Except Err Wf :=
+  if !subsetOf chs (channels w) then .error .keyError
+  else if sameSet chs (channels w) then .ok w
+  else unsafeSubset w chs
+
+/-! ## Equality (`__eq__`): same class and equal slots.  Set- and dict-valued slots are kept sorted. -/
+
+mutual
+def eqv : Wf → Wf → Bool
+  | .table c es, .table c' es' => decide (c = c' ∧ es = es')
+  | .const d a c, .const d' a' c' => decide (d = d' ∧ a = a' ∧ c = c')
+  | .func s i d c, .func s' i' d' c' => decide (s = s' ∧ i = i' ∧ d = d' ∧ c = c')
+  | .seq ws, .seq ws' => eqvL ws ws'
+  | .multi ws, .multi ws' => eqvL ws ws'
+  | .rep b n, .rep b' n' => eqv b b' && decide (n = n')
+  | .trans i tr, .trans i' tr' => eqv i i' && decide (tr = tr')
+  | .subset i cs, .subset i' cs' => eqv i i' && decide (cs = cs')
+  | .arith l op r, .arith l' op' r' => eqv l l' && decide (op = op') && eqv r r'
+  | .functor i fs, .functor i' fs' => eqv i i' && decide (fs = fs')
+  | .reversed i, .reversed i' => eqv i i'
+  | _, _ => false
+termination_by structural w => w
+def eqvL : List Wf → List Wf → Bool
+  | [], [] => true
+  | w :: ws, w' :: ws' => eqv w w' && eqvL ws ws'
+  | _, _ => false
+termination_by structural ws => ws
+end
+
+/-! ## Well-formedness: what the constructors do not check but sampling relies on -/
+
+/-- the entry times start at 0 and never decrease, and there are at least two entries -/
+def tableOk : List Entry → Bool
+  | e1 :: e2 :: rest => decide (e1.t = 0) && mono (e1 :: e2 :: rest)
+  | _ => false
+where
+  mono : List Entry → Bool
+    | e1 :: e2 :: rest => decide (e1.t ≤ e2.t) && mono (e2 :: rest)
+    | _ => true
+
+def lookupAll {α} (fs : List (Chan × α)) (cs : List Chan) : Bool := cs.all (fun c => (fs.lookup c).isSome)
+
+mutual
+def wf : Wf → Bool
+  | .table _ es => tableOk es
+  | .const d _ _ => decide (0 ≤ d)
+  | .func _ _ d _ => decide (0 ≤ d)
+  | .seq ws => !ws.isEmpty && wfL ws && sameChans (chanHead ws) ws
+  | .multi ws => !ws.isEmpty && wfL ws && sameDur (durHead ws) ws && disjointGo [] ws
+  | .rep b n => wf b && decide (1 ≤ n)
+  | .trans i tr => wf i && tr.okOn (channels i)
+  | .subset i chs => wf i && subsetOf chs (channels i)
+  | .arith l _ r => wf l && wf r && decide (duration l = duration r)
+  | .functor i fs => wf i && lookupAll fs (channels i)
+  | .reversed i => wf i
+termination_by structural w => w
+def wfL : List Wf → Bool
+  | [] => true
+  | w :: ws => wf w && wfL ws
+termination_by structural ws => ws
+def sameChans : List Chan → List Wf → Bool
+  | _, [] => true
+  | cs, w :: ws => sameSet (channels w) cs && sameChans cs ws
+termination_by structural _ ws => ws
+def sameDur : Rat → List Wf → Bool
+  | _, [] => true
+  | d, w :: ws => decide (duration w = d) && sameDur d ws
+termination_by structural _ ws => ws
+end
+
+end Wf
+end QP.C08
+
+/-! ## Executable specification used as the judge of the implementation's outputs
+
+The property relates observations of one waveform (or of a waveform and the one an optimising
+constructor / `get_subset_for_channels` / `reversed` made from it) at the same sample times.  The
+judge receives the *implementation's* numbers. -/
+namespace QP.C08
+
+/-- a reported constant value equals every sample -/
+def ConstSpec (c : Rat) (vs : List (Option Rat)) : Prop := ∀ v ∈ vs, v = some c
+def constSpecB (c : Rat) (vs : List (Option Rat)) : Bool := vs.all (fun v => decide (v = some c))
+
+/-- two waveforms sample identically (smart vs plain constructor, subset vs original, reversed vs
+original at mirrored times, equal waveforms, repeated calls) -/
+def SameSpec (vs ws : List (Option Rat)) : Prop := vs = ws
+def sameSpecB (vs ws : List (Option Rat)) : Bool := decide (vs = ws)
+
+/-- every requested time yields a finite value -/
+def TotalSpec (vs : List (Option Rat)) : Prop := ∀ v ∈ vs, v ≠ none
+def totalSpecB (vs : List (Option Rat)) : Bool := vs.all (fun v => v.isSome)
+
+/-- index of the first offending sample (for replay files) -/
+def firstBad (p : Option Rat → Bool) (vs : List (Option Rat)) : Nat := (vs.takeWhile p).length
+
+def firstDiff : List (Option Rat) → List (Option Rat) → Nat
+  | v :: vs, w :: ws => if v = w then firstDiff vs ws + 1 else 0
+  | _, _ => 0
+
+end QP.C08
+
+/-! ## Line protocol -/
 namespace QP.C08
 open Sexp
 
+def errS : Err → Sexp
+  | .valueError => .list [.atom "error", .atom "value_error"]
+  | .keyError => .list [.atom "error", .atom "key_error"]
+  | .assertionError => .list [.atom "error", .atom "assertion"]
+  | .indexError => .list [.atom "error", .atom "index_error"]
+
+def chan? : Sexp → Option Chan
+  | .atom s => some s
+  | _ => none
+
+def Interp.toSexp : Interp → Sexp
+  | .hold => .atom "hold"
+  | .jump => .atom "jump"
+  | .linear => .atom "linear"
+
+def Interp.ofSexp : Sexp → Option Interp
+  | .atom "hold" => some .hold
+  | .atom "jump" => some .jump
+  | .atom "linear" => some .linear
+  | _ => none
+
+def Entry.toSexp (e : Entry) : Sexp := .list [ofRat e.t, ofRat e.v, e.interp.toSexp]
+
+def Entry.ofSexp : Sexp → Option Entry
+  | .list [t, v, i] => do pure ⟨← rat? t, ← rat? v, ← Interp.ofSexp i⟩
+  | _ => none
+
+def TV.toSexp : TV → Sexp
+  | .num c => .list [.atom "num", ofRat c]
+  | .expr s i => .list [.atom "expr", ofRat s, ofRat i]
+
+def TV.ofSexp : Sexp → Option TV
+  | .list [.atom "num", c] => do pure (.num (← rat? c))
+  | .list [.atom "expr", s, i] => do pure (.expr (← rat? s) (← rat? i))
+  | _ => none
+
+def tvMap? : Sexp → Option (List (Chan × TV))
+  | .list xs => xs.mapM (fun
+    | .list [c, tv] => do pure (← chan? c, ← TV.ofSexp tv)
+    | _ => none)
+  | _ => none
+
+def tvMapS (m : List (Chan × TV)) : Sexp := .list (m.map (fun kv => .list [.atom kv.1, kv.2.toSexp]))
+
+def chans? : Sexp → Option (List Chan) := listOf? chan?
+def chansS (cs : List Chan) : Sexp := .list (cs.map .atom)
+
+def TAtom.toSexp : TAtom → Sexp
+  | .identity => .list [.atom "identity"]
+  | .offset m => .list [.atom "offset", tvMapS m]
+  | .scaling m => .list [.atom "scaling", tvMapS m]
+  | .linear mat ins outs => .list [.atom "linear", .list (mat.map (fun r => .list (r.map ofRat))), chansS ins, chansS outs]
+  | .parallel m => .list [.atom "parallel", tvMapS m]
+
+def TAtom.ofSexp : Sexp → Option TAtom
+  | .list [.atom "identity"] => some .identity
+  | .list [.atom "offset", m] => do pure (.offset (← tvMap? m))
+  | .list [.atom "scaling", m] => do pure (.scaling (← tvMap? m))
+  | .list [.atom "linear", mat, ins, outs] => do
+    pure (.linear (← listOf? (listOf? rat?) mat) (← chans? ins) (← chans? outs))
+  | .list [.atom "parallel", m] => do pure (.parallel (← tvMap? m))
+  | _ => none
+
+def Trafo.toSexp : Trafo → Sexp
+  | .atom a => a.toSexp
+  | .chain as => .list (.atom "chain" :: as.map TAtom.toSexp)
+
+def Trafo.ofSexp : Sexp → Option Trafo
+  | .list (.atom "chain" :: as) => do pure (.chain (← as.mapM TAtom.ofSexp))
+  | s => do pure (.atom (← TAtom.ofSexp s))
+
+def Fn.toSexp : Fn → Sexp
+  | .neg => .atom "neg"
+  | .pos => .atom "pos"
+  | .abs => .atom "abs"
+
+def Fn.ofSexp : Sexp → Option Fn
+  | .atom "neg" => some .neg
+  | .atom "pos" => some .pos
+  | .atom "abs" => some .abs
+  | _ => none
+
+def fnMap? : Sexp → Option (List (Chan × Fn))
+  | .list xs => xs.mapM (fun
+    | .list [c, f] => do pure (← chan? c, ← Fn.ofSexp f)
+    | _ => none)
+  | _ => none
+
+def ArithOp.toSexp : ArithOp → Sexp
+  | .plus => .atom "plus"
+  | .minus => .atom "minus"
+
+def ArithOp.ofSexp : Sexp → Option ArithOp
+  | .atom "plus" => some .plus
+  | .atom "minus" => some .minus
+  | _ => none
+
+partial def Wf.toSexp : Wf → Sexp
+  | .table ch es => .list [.atom "table", .atom ch, .list (es.map Entry.toSexp)]
+  | .const d a ch => .list [.atom "const", ofRat d, ofRat a, .atom ch]
+  | .func s i d ch => .list [.atom "func", ofRat s, ofRat i, ofRat d, .atom ch]
+  | .seq ws => .list (.atom "seq" :: ws.map Wf.toSexp)
+  | .multi ws => .list (.atom "multi" :: ws.map Wf.toSexp)
+  | .rep b n => .list [.atom "rep", b.toSexp, ofNat n]
+  | .trans i tr => .list [.atom "trans", i.toSexp, tr.toSexp]
+  | .subset i cs => .list [.atom "subset", i.toSexp, chansS cs]
+  | .arith l op r => .list [.atom "arith", l.toSexp, op.toSexp, r.toSexp]
+  | .functor i fs => .list [.atom "functor", i.toSexp, .list (fs.map (fun kv => .list [.atom kv.1, kv.2.toSexp]))]
+  | .reversed i => .list [.atom "reversed", i.toSexp]
+
+partial def Wf.ofSexp : Sexp → Option Wf
+  | .list [.atom "table", ch, .list es] => do pure (.table (← chan? ch) (← es.mapM Entry.ofSexp))
+  | .list [.atom "const", d, a, ch] => do pure (.const (← rat? d) (← rat? a) (← chan? ch))
+  | .list [.atom "func", s, i, d, ch] => do pure (.func (← rat? s) (← rat? i) (← rat? d) (← chan? ch))
+  | .list (.atom "seq" :: ws) => do pure (.seq (← ws.mapM Wf.ofSexp))
+  | .list (.atom "multi" :: ws) => do pure (.multi (← ws.mapM Wf.ofSexp))
+  | .list [.atom "rep", b, n] => do pure (.rep (← Wf.ofSexp b) (← nat? n))
+  | .list [.atom "trans", i, tr] => do pure (.trans (← Wf.ofSexp i) (← Trafo.ofSexp tr))
+  | .list [.atom "subset", i, cs] => do pure (.subset (← Wf.ofSexp i) (← chans? cs))
+  | .list [.atom "arith", l, op, r] => do pure (.arith (← Wf.ofSexp l) (← ArithOp.ofSexp op) (← Wf.ofSexp r))
+  | .list [.atom "functor", i, fs] => do pure (.functor (← Wf.ofSexp i) (← fnMap? fs))
+  | .list [.atom "reversed", i] => do pure (.reversed (← Wf.ofSexp i))
+  | _ => none
+
+def valS : Option Rat → Sexp
+  | some v => ofRat v
+  | none => .atom "nan"
+
+def val? : Sexp → Option (Option Rat)
+  | .atom "nan" => some none
+  | s => (rat? s).map some
+
+def optS : Option Rat → Sexp
+  | some v => ofRat v
+  | none => .atom "none"
+
+def dictS (d : List (Chan × Rat)) : Sexp := .list (d.map (fun kv => .list [.atom kv.1, ofRat kv.2]))
+
+def dict? : Sexp → Option (List (Chan × Rat))
+  | .list xs => xs.mapM (fun
+    | .list [c, v] => do pure (← chan? c, ← rat? v)
+    | _ => none)
+  | _ => none
+
+/-- everything observable about one waveform on a grid of times -/
+def obs (w : Wf) (ts : List Rat) : List Sexp :=
+  let cs := sortChans w.channels
+  [ .list (.atom "chans" :: cs.map .atom),
+    .list [.atom "dur", ofRat w.duration],
+    .list [.atom "wf", ofBool w.wf],
+    .list (.atom "cv" :: cs.map (fun c => .list [.atom c, optS (w.constantValue c)])),
+    .list [.atom "cvd", match w.constantValueDict with
+      | some d => dictS d
+      | none => .atom "none"],
+    .list (.atom "samples" :: cs.map (fun c => .list (.atom c :: ts.map (fun t => valS (w.sample c t))))) ]
+
+def okWf (r : Except Err Wf) (ts : List Rat) : Sexp :=
+  match r with
+  | .error e => errS e
+  | .ok w => .list (.atom "ok" :: w.toSexp :: obs w ts)
+
+def wfs? : Sexp → Option (List Wf) := listOf? Wf.ofSexp
+def rats? : Sexp → Option (List Rat) := listOf? rat?
+def vals? : Sexp → Option (List (Option Rat)) := listOf? val?
+
+def bad : Sexp := Sexp.err "bad-args"
+
+def ctor (name : String) (args : List Sexp) (ts : List Rat) : Sexp :=
+  match name, args with
+  | "from_table", [ch, .list es] =>
+    match chan? ch, es.mapM Entry.ofSexp with
+    | some ch, some es => okWf (Wf.fromTable ch es) ts
+    | _, _ => bad
+  | "from_expression", [s, i, d, ch] =>
+    match rat? s, rat? i, rat? d, chan? ch with
+    | some s, some i, some d, some ch => okWf (.ok (Wf.fromExpression s i d ch)) ts
+    | _, _, _, _ => bad
+  | "seq", [ws] => match wfs? ws with
+    | some ws => okWf (Wf.mkSeq ws) ts
+    | none => bad
+  | "from_sequence", [ws] => match wfs? ws with
+    | some ws => okWf (Wf.fromSequence ws) ts
+    | none => bad
+  | "multi", [ws] => match wfs? ws with
+    | some ws => okWf (Wf.mkMulti ws) ts
+    | none => bad
+  | "from_parallel", [ws] => match wfs? ws with
+    | some ws => okWf (Wf.fromParallel ws) ts
+    | none => bad
+  | "rep", [b, n] => match Wf.ofSexp b, int? n with
+    | some b, some n => okWf (Wf.mkRep b n) ts
+    | _, _ => bad
+  | "from_repetition_count", [b, n] => match Wf.ofSexp b, int? n with
+    | some b, some n => okWf (Wf.fromRepetitionCount b n) ts
+    | _, _ => bad
+  | "trans", [i, tr] => match Wf.ofSexp i, Trafo.ofSexp tr with
+    | some i, some tr => okWf (Wf.mkTrans i tr) ts
+    | _, _ => bad
+  | "from_transformation", [i, tr] => match Wf.ofSexp i, Trafo.ofSexp tr with
+    | some i, some tr => okWf (Wf.fromTransformation i tr) ts
+    | _, _ => bad
+  | "arith", [l, op, r] => match Wf.ofSexp l, ArithOp.ofSexp op, Wf.ofSexp r with
+    | some l, some op, some r => okWf (Wf.mkArith l op r) ts
+    | _, _, _ => bad
+  | "from_operator", [l, op, r] => match Wf.ofSexp l, ArithOp.ofSexp op, Wf.ofSexp r with
+    | some l, some op, some r => okWf (Wf.fromOperator l op r) ts
+    | _, _, _ => bad
+  | "functor", [i, fs] => match Wf.ofSexp i, fnMap? fs with
+    | some i, some fs => okWf (Wf.mkFunctor i (dnorm fs)) ts
+    | _, _ => bad
+  | "from_functor", [i, fs] => match Wf.ofSexp i, fnMap? fs with
+    | some i, some fs => okWf (Wf.fromFunctor i (dnorm fs)) ts
+    | _, _ => bad
+  | "reversed", [i] => match Wf.ofSexp i with
+    | some i => okWf (.ok (Wf.reversedM i)) ts
+    | none => bad
+  | "from_to_reverse", [i] => match Wf.ofSexp i with
+    | some i => okWf (.ok (Wf.fromToReverse i)) ts
+    | none => bad
+  | "subset", [i, cs] => match Wf.ofSexp i, chans? cs with
+    | some i, some cs => okWf (Wf.getSubset i cs) ts
+    | _, _ => bad
+  | "unsafe_subset", [i, cs] => match Wf.ofSexp i, chans? cs with
+    | some i, some cs => okWf (Wf.unsafeSubset i cs) ts
+    | _, _ => bad
+  | "from_mapping", [d, m] => match rat? d, dict? m with
+    | some d, some m => okWf (Wf.fromMapping d (dnorm m)) ts
+    | _, _ => bad
+  | _, _ => Sexp.err "c08-unknown-constructor"
+
+/-- transformations in recipes: `(linear mat ins outs)` goes through `LinearTransformation.__init__`
+(sorting), `(chain t…)` through `chain_transformations`, `(chain-plain a…)` is `ChainedTransformation(*a)` -/
+partial def evalTrafo : Sexp → Except Sexp Trafo
+  | .list [.atom "linear", mat, ins, outs] =>
+    match listOf? (listOf? rat?) mat, chans? ins, chans? outs with
+    | some mat, some ins, some outs => match mkLinear mat ins outs with
+      | .error e => .error (errS e)
+      | .ok a => .ok (.atom a)
+    | _, _, _ => .error bad
+  | .list (.atom "chain" :: ts) => do
+    let ts ← ts.mapM evalTrafo
+    pure (chainTransformations ts)
+  | .list (.atom "chain-plain" :: ts) => do
+    let ts ← ts.mapM evalTrafo
+    let atoms ← ts.mapM (fun t => match t with
+      | .atom a => .ok a
+      | .chain _ => .error bad)
+    pure (.chain atoms)
+  | s => match Trafo.ofSexp s with
+    | some (.atom a) => .ok (.atom a.norm)
+    | some (.chain as) => .ok (.chain (as.map TAtom.norm))
+    | none => .error bad
+
+def liftE (r : Except Err Wf) : Except Sexp Wf :=
+  match r with
+  | .ok w => .ok w
+  | .error e => .error (errS e)
+
+/-- a recipe is the tree of constructor calls the harness performs on the real classes; children are
+built first, left to right -/
+partial def evalRecipe : Sexp → Except Sexp Wf
+  | .list [.atom "table", smart, ch, .list es] =>
+    match nat? smart, chan? ch, es.mapM Entry.ofSexp with
+    | some 0, some ch, some es => liftE (Wf.mkTable ch es)
+    | some _, some ch, some es => liftE (Wf.fromTable ch es)
+    | _, _, _ => .error bad
+  | .list [.atom "const", d, a, ch] =>
+    match rat? d, rat? a, chan? ch with
+    | some d, some a, some ch => .ok (.const d a ch)
+    | _, _, _ => .error bad
+  | .list [.atom "func", smart, s, i, d, ch] =>
+    match nat? smart, rat? s, rat? i, rat? d, chan? ch with
+    | some 0, some s, some i, some d, some ch => .ok (.func s i d ch)
+    | some _, some s, some i, some d, some ch => .ok (Wf.fromExpression s i d ch)
+    | _, _, _, _, _ => .error bad
+  | .list (.atom "seq" :: smart :: rs) => do
+    let ws ← rs.mapM evalRecipe
+    match nat? smart with
+    | some 0 => liftE (Wf.mkSeq ws)
+    | some _ => liftE (Wf.fromSequence ws)
+    | none => .error bad
+  | .list (.atom "multi" :: smart :: rs) => do
+    let ws ← rs.mapM evalRecipe
+    match nat? smart with
+    | some 0 => liftE (Wf.mkMulti ws)
+    | some _ => liftE (Wf.fromParallel ws)
+    | none => .error bad
+  | .list [.atom "rep", smart, r, n] => do
+    let b ← evalRecipe r
+    match nat? smart, int? n with
+    | some 0, some n => liftE (Wf.mkRep b n)
+    | some _, some n => liftE (Wf.fromRepetitionCount b n)
+    | _, _ => .error bad
+  | .list [.atom "trans", smart, r, tr] => do
+    let i ← evalRecipe r
+    let tr ← evalTrafo tr
+    match nat? smart with
+    | some 0 => liftE (Wf.mkTrans i tr)
+    | some _ => liftE (Wf.fromTransformation i tr)
+    | none => .error bad
+  | .list [.atom "arith", smart, l, op, r] => do
+    let l ← evalRecipe l
+    let r ← evalRecipe r
+    match nat? smart, ArithOp.ofSexp op with
+    | some 0, some op => liftE (Wf.mkArith l op r)
+    | some _, some op => liftE (Wf.fromOperator l op r)
+    | _, _ => .error bad
+  | .list [.atom "functor", smart, r, fs] => do
+    let i ← evalRecipe r
+    match nat? smart, fnMap? fs with
+    | some 0, some fs => liftE (Wf.mkFunctor i (dnorm fs))
+    | some _, some fs => liftE (Wf.fromFunctor i (dnorm fs))
+    | _, _ => .error bad
+  | .list [.atom "reversed", mode, r] => do
+    let i ← evalRecipe r
+    match nat? mode with
+    | some 0 => .ok (.reversed i)
+    | some 1 => .ok (Wf.fromToReverse i)
+    | some _ => .ok (Wf.reversedM i)
+    | none => .error bad
+  | .list [.atom "subset", mode, r, cs] => do
+    let i ← evalRecipe r
+    match nat? mode, chans? cs with
+    | some 0, some cs => .ok (.subset i (sortChans cs))
+    | some 1, some cs => liftE (Wf.getSubset i cs)
+    | some _, some cs => liftE (Wf.unsafeSubset i cs)
+    | _, _ => .error bad
+  | .list [.atom "mapping", d, m] =>
+    match rat? d, dict? m with
+    | some d, some m => liftE (Wf.fromMapping d (dnorm m))
+    | _, _ => .error bad
+  | .list [.atom "lit", w] =>
+    match Wf.ofSexp w with
+    | some w => .ok w
+    | none => .error bad
+  | _ => .error bad
+
 def handle : List Sexp → Sexp
-  | _ => Sexp.err "c08-not-implemented"
+  | [.atom "obs", w, ts] =>
+    match Wf.ofSexp w, rats? ts with
+    | some w, some ts => .list (.atom "ok" :: obs w ts)
+    | _, _ => bad
+  | .atom "ctor" :: .atom name :: rest =>
+    match rest.getLast? with
+    | some tsS => match rats? tsS with
+      | some ts => ctor name rest.dropLast ts
+      | none => bad
+    | none => bad
+  | [.atom "validate", .list es] =>
+    match es.mapM Entry.ofSexp with
+    | some es => match validateInput es with
+      | .error e => errS e
+      | .ok (.constant d c) => .list [.atom "constant", ofRat d, ofRat c]
+      | .ok (.entries es) => .list (.atom "entries" :: es.map Entry.toSexp)
+    | none => bad
+  | [.atom "linear", mat, ins, outs] =>
+    match listOf? (listOf? rat?) mat, chans? ins, chans? outs with
+    | some mat, some ins, some outs => match mkLinear mat ins outs with
+      | .error e => errS e
+      | .ok a => .list [.atom "ok", a.toSexp]
+    | _, _, _ => bad
+  | [.atom "chain", .list ts] =>
+    match ts.mapM Trafo.ofSexp with
+    | some ts => .list [.atom "ok", (chainTransformations ts).toSexp]
+    | none => bad
+  | [.atom "case", r, ts] =>
+    match rats? ts with
+    | some ts => match evalRecipe r with
+      | .ok w => .list (.atom "ok" :: w.toSexp :: obs w ts)
+      | .error e => e
+    | none => bad
+  | [.atom "eq", a, b] =>
+    match evalRecipe a, evalRecipe b with
+    | .ok a, .ok b => ofBool (Wf.eqv a b)
+    | _, _ => bad
+  | [.atom "judge-const", c, vs] =>
+    match rat? c, vals? vs with
+    | some c, some vs =>
+      if constSpecB c vs then .atom "ok"
+      else .list [.atom "violates", .atom "constant-differs-from-sample", ofNat (firstBad (fun v => decide (v = some c)) vs)]
+    | _, _ => bad
+  | [.atom "judge-same", vs, ws] =>
+    match vals? vs, vals? ws with
+    | some vs, some ws =>
+      if sameSpecB vs ws then .atom "ok"
+      else .list [.atom "violates", .atom "samples-differ", ofNat (firstDiff vs ws)]
+    | _, _ => bad
+  | [.atom "judge-total", vs] =>
+    match vals? vs with
+    | some vs =>
+      if totalSpecB vs then .atom "ok"
+      else .list [.atom "violates", .atom "not-finite", ofNat (firstBad (fun v => v.isSome) vs)]
+    | none => bad
+  | _ => Sexp.err "c08-unknown-request"
 
 end QP.C08
